@@ -4,7 +4,9 @@ import (
 	"encoding/json"
 	"fmt"
 	"os"
+	"regexp"
 	"sort"
+	"strconv"
 	"strings"
 	"time"
 
@@ -26,6 +28,28 @@ type schedStatsM struct {
 	Internal    string   `json:"internal"`
 	Preemptions int      `json:"max_preemptions_seen"`
 	PointLabels []string `json:"point_labels"`
+}
+
+var schedRe = regexp.MustCompile(`^schedule \[([0-9 ]*)\]`)
+
+// withOnly returns a copy of a scheduler task argument that replays just the
+// schedule named at the start of a violation text.
+func withOnly(arg map[string]any, viol string) map[string]any {
+	m := schedRe.FindStringSubmatch(viol)
+	if m == nil {
+		return arg
+	}
+	only := []int{}
+	for _, f := range strings.Fields(m[1]) {
+		n, _ := strconv.Atoi(f)
+		only = append(only, n)
+	}
+	c := map[string]any{}
+	for k, v := range arg {
+		c[k] = v
+	}
+	c["only"] = only
+	return c
 }
 
 func schedBin() (string, string) {
@@ -143,7 +167,7 @@ func runSched13(rep *core.Report, tier string) {
 			} else if strings.Contains(v, "happened") {
 				sig = "sourcebundle.Builder/concurrent-add/duplicate-fetch"
 			}
-			rep.Violation(sig, desc+" :: "+v, "schedbuild", args[i])
+			rep.Violation(sig, desc+" :: "+v, "schedbuild", withOnly(args[i], v))
 		}
 		if i%17 == 0 {
 			rep.Sample(fmt.Sprintf("%s => %d schedules, %d scheduling points, %d distinct outcomes, max %d preemptions", desc, st.Executions, st.Points, len(st.Outcomes), st.Preemptions))
@@ -280,7 +304,7 @@ func runSched16(rep *core.Report, tier string) map[string]any {
 				rep.Nontrivial("schedpack:" + o)
 			}
 			for _, v := range st.Violations {
-				rep.Violation("slug.Pack/concurrent/output-depends-on-interleaving", desc+" :: "+v, "schedpack", args[i])
+				rep.Violation("slug.Pack/concurrent/output-depends-on-interleaving", desc+" :: "+v, "schedpack", withOnly(args[i], v))
 			}
 			if i%9 == 0 {
 				rep.Sample(fmt.Sprintf("%s => %d schedules, %d points, %d distinct outcomes", desc, st.Executions, st.Points, len(st.Outcomes)))
